@@ -7,6 +7,7 @@ import os
 
 sys.path.insert(0, os.path.dirname(__file__))
 from common import (TranslateError, lean_num, lean_chars, read, write_if_changed, strip_comments)
+from common import REPO as REPO_ROOT
 
 
 def static_array(src: str, name: str):
@@ -23,6 +24,24 @@ def static_array(src: str, name: str):
     if n_decl is not None and n_decl != len(items):
         raise TranslateError(f"{name}: declared {n_decl} items, found {len(items)}")
     return ty, items
+
+
+def table_behind(src: str, default: str, accessor: str) -> str:
+    """The name of a static table: `default` if the source declares it; otherwise (the table was renamed) the one upper-case
+    identifier that the public accessor function(s) `accessor` look things up in (`NAME.get(..)`, `.index(..)`, `.contains(..)`,
+    `.iter()`, `.len()`). The accessors are public API; the data are whatever they read."""
+    if re.search(r"(?:static|const)\s+" + default + r"\s*:", src):
+        return default
+    names = set()
+    for m in re.finditer(r"fn\s+" + accessor + r"\s*\([^)]*\)\s*(?:->\s*[^{]+)?\{", src):
+        depth, j = 1, m.end()
+        while depth and j < len(src):
+            depth += {"{": 1, "}": -1}.get(src[j], 0)
+            j += 1
+        names.update(re.findall(r"\b([A-Z][A-Z0-9_]+)\s*\.\s*(?:get|index|contains|iter|len)\s*\(", src[m.end():j]))
+    if len(names) != 1:
+        raise TranslateError(f"static array {default} not found (and {accessor}() reads {sorted(names) or 'no table'})")
+    return names.pop()
 
 
 def str_items(items, name):
@@ -98,26 +117,32 @@ def gen_tables() -> str:
         except FileNotFoundError:
             pass
     atoms = strip_comments(read("src/atoms.rs"))
+    # submodules of atoms (src/atoms/*.rs), should the tables have been moved into one
+    sub = os.path.join(REPO_ROOT, "src/atoms")
+    if os.path.isdir(sub):
+        for f in sorted(os.listdir(sub)):
+            if f.endswith(".rs"):
+                atoms += "\n" + strip_comments(read("src/atoms/" + f))
     out = ["-- GENERATED by translate/tables.py from /repo/src — do not edit; regenerated on every check run.",
            "import OptRs.Calc.Num", "namespace OptRs.Gen", ""]
-    for rust, lean in (("ELEMENTS", "elements"), ("METALLIC_ELEMENTS", "metallicElements"),
-                       ("MAIN_GROUP_ELEMENTS", "mainGroupElements")):
-        ty, items = static_array(atoms, rust)
+    for rust, lean, acc in (("ELEMENTS", "elements", "to_atomic_symbol"), ("METALLIC_ELEMENTS", "metallicElements", "is_metal"),
+                            ("MAIN_GROUP_ELEMENTS", "mainGroupElements", "is_main_group")):
+        ty, items = static_array(atoms, table_behind(atoms, rust, acc))
         if ty.replace(" ", "") != "&str":
             raise TranslateError(f"{rust}: unexpected element type {ty}")
         ss = str_items(items, rust)
         out.append(f"/-- `{rust}` of src/atoms.rs, each symbol as its list of code points. -/")
         out.append(f"def {lean} : List (List Nat) := " + lean_list([lean_chars(s) for s in ss]))
         out.append("")
-    for rust, lean in (("COVALENT_RADII_PICOMETERS", "covalentRadiiPm"),
-                       ("GMP_ELECTRONEGATIVITIES", "gmpElectronegativities")):
-        ty, items = static_array(atoms, rust)
+    for rust, lean, acc in (("COVALENT_RADII_PICOMETERS", "covalentRadiiPm", "covalent_radius"),
+                            ("GMP_ELECTRONEGATIVITIES", "gmpElectronegativities", "gmp_electronegativity")):
+        ty, items = static_array(atoms, table_behind(atoms, rust, acc))
         if ty != "f64":
             raise TranslateError(f"{rust}: unexpected element type {ty}")
         out.append(f"/-- `{rust}` of src/atoms.rs. -/")
         out.append(f"def {lean} : List Num := " + lean_list([lean_num(x) for x in items], 4))
         out.append("")
-    ty, items = static_array(atoms, "MAXIMAL_VALENCIES")
+    ty, items = static_array(atoms, table_behind(atoms, "MAXIMAL_VALENCIES", "maximal_valence"))
     if ty != "usize":
         raise TranslateError("MAXIMAL_VALENCIES: unexpected type")
     for it in items:
